@@ -783,12 +783,12 @@ func acceptHeader(h wire.Header) acceptVerdict {
 	return acceptOK
 }
 
-// rejectInPlace writes the library-shaped rejection — a bare header with
-// the request ID and opcode echoed, QR set, sections zeroed — without
-// touching the allocator.
 // rejectExpired answers a query whose budget lapsed while it waited.
 func (j *udpJob) rejectExpired() { j.rejectInPlace(acceptServerFailure) }
 
+// rejectInPlace writes the library-shaped rejection — a bare header with
+// the request ID and opcode echoed, QR set, sections zeroed — without
+// touching the allocator.
 func (j *udpJob) rejectInPlace(verdict acceptVerdict) {
 	if a, ok := j.engine.handler.(sourceAdmitter); ok && !a.AdmitsSource(j.RemoteAddr()) {
 		// Outside the access list: silent, like every other query from
